@@ -310,3 +310,43 @@ package identity
 //@   invariant loop1: len(validatorUpdates) > 0 ==> qMax(arr(vs.queue.PriorityQueue)) <= validatorUpdates[len(validatorUpdates) - 1].Power   // C10.higher-stake-first
 // (quantified over absolute positions i of the backing array, with the element read as trigger: no index arithmetic to match)
 //@   invariant loop1: forall i int :: { elems(validatorUpdates)[i] } off(validatorUpdates) <= i && i < off(validatorUpdates) + len(validatorUpdates) ==> validatorUpdates[len(validatorUpdates) - 1].Power <= elems(validatorUpdates)[i].Power   // C10.higher-stake-first
+
+// ---------------------------------------------------------------- view "status": the status bookkeeping of the election (C19)
+// A second, independent proof of the SAME body (a `view`: own loop invariants, the main contract's preconditions, callers never
+// see it). The main contract above already carries twenty invariants of the election loop and is at the edge of what the
+// solvers discharge; the facts below need none of them.
+// TOP-LEVEL C19 ("accounts that are not active validators cannot open or vote on allegations" rests on the status records
+// the election keeps): every candidate the election passes over - it is put into the purge map nonTopValidators, from which
+// the power-0 updates are issued - is recorded INACTIVE in the evidence store when the election loop is done with it.
+//   S1: every (canonically written) address in the purge map has no active status record
+//   S0: no candidate still queued is in the purge map (lets an elected candidate be recorded active without contradicting S1)
+// Environment: the record filed under address a in the previous block's state carries Address == a (wfVS one block earlier);
+// no address is queued twice (A-QDISTINCT: InitValidatorQueue pushes one item per key of the validator store's range scan), so
+// no remaining item carries the value Pop just removed - a trusted extra postcondition of Pop used in this view only.
+//@ func (*ValidatorStore).GetEndBlockUpdate view status
+//@   calleetrusts (*ValidatorQueue).Pop :: old(len(vq.PriorityQueue)) > 0 ==> forall i int :: { elems(vq.PriorityQueue)[i] } off(vq.PriorityQueue) <= i && i < off(vq.PriorityQueue) + len(vq.PriorityQueue) ==> str(as(elems(vq.PriorityQueue)[i], "*utils.Queued").value) != str(result.value)   // A-QDISTINCT
+//@   assumes forall a string :: len(verVal(vs.store.cs)[wrap64(req.Height - 1)][str(vs.prefix) + a]) != 0 && deserok(verVal(vs.store.cs)[wrap64(req.Height - 1)][str(vs.prefix) + a], "Validator") ==> str(deser(verVal(vs.store.cs)[wrap64(req.Height - 1)][str(vs.prefix) + a], "Validator").Address) == a   // A-VS-WF-PREV
+//@   invariant loop1: vs.prefix == old(vs.prefix) && vs.store == old(vs.store) && vs.store.cs == old(vs.store.cs) && ctx.EvidenceStore == old(ctx.EvidenceStore) && wfPQ(vs.queue.PriorityQueue)   // C19.dropped-inactive
+//@   invariant loop1: forall a string :: { addrStr(a) } has(nonTopValidators, addrStr(a)) && addrOfStr(addrStr(a)) == a ==> !activeVal(ctx.EvidenceStore, bytes(a))   // C19.dropped-inactive
+//@   invariant loop1: forall i int :: { elems(vs.queue.PriorityQueue)[i] } off(vs.queue.PriorityQueue) <= i && i < off(vs.queue.PriorityQueue) + len(vs.queue.PriorityQueue) && addrOfStr(addrStr(str(as(elems(vs.queue.PriorityQueue)[i], "*utils.Queued").value))) == str(as(elems(vs.queue.PriorityQueue)[i], "*utils.Queued").value) ==> !has(nonTopValidators, addrStr(str(as(elems(vs.queue.PriorityQueue)[i], "*utils.Queued").value)))   // C19.dropped-inactive
+
+// ---------------------------------------------------------------- view "purge": the purge map is complete (C10)
+// Third proof of the same body. "Once stakes stop changing, the active set converges to exactly that election" needs, per
+// block, that a candidate the election passes over can be removed from Tendermint's set: it must be in the purge map
+// nonTopValidators (from which the power-0 updates of the last-active validators are issued). Stated with the status
+// records as the marker of "elected": every candidate popped in this call whose record decodes is, when the loop is done
+// with it, either in the purge map or recorded active (= it was issued a positive update or kept its place).
+// qPopped(arr(q)): ghost set of the values Pop has handed out, attached to the backing array like qMax (a frame extension of Pop used in this view only).
+// Environment, listed: the status write of the election does not fail and a status record serialises (otherwise the body
+// `continue`s past both branches: the candidate is then neither issued nor purged in this block).
+//@ model qPopped(utils.PriorityQueue) array[string]bool
+//@ ghost func recOKAt(row array[string]bytes, pfx bytes, a string) bool = len(row[str(pfx) + a]) != 0 && deserok(row[str(pfx) + a], "Validator")
+//@ func (*ValidatorStore).GetEndBlockUpdate view purge
+//@   assumes forall a string :: len(verVal(vs.store.cs)[wrap64(req.Height - 1)][str(vs.prefix) + a]) != 0 && deserok(verVal(vs.store.cs)[wrap64(req.Height - 1)][str(vs.prefix) + a], "Validator") ==> str(deser(verVal(vs.store.cs)[wrap64(req.Height - 1)][str(vs.prefix) + a], "Validator").Address) == a   // A-VS-WF-PREV
+//@   calleetrusts (*ValidatorQueue).Pop :: modifies qPopped(arr(vq.PriorityQueue))
+//@   calleetrusts (*ValidatorQueue).Pop :: old(len(vq.PriorityQueue)) > 0 ==> qPopped(arr(vq.PriorityQueue)) == old(qPopped(arr(vq.PriorityQueue)))[str(result.value) := true]
+//@   calleetrusts (*ValidatorQueue).Pop :: old(len(vq.PriorityQueue)) == 0 ==> qPopped(arr(vq.PriorityQueue)) == old(qPopped(arr(vq.PriorityQueue)))
+//@   calleetrusts (*EvidenceStore).SetValidatorStatus :: err == nil                                      // A-STATUS-WRITE
+//@   calleetrusts (*EvidenceStore).SetValidatorStatus :: isActive ==> activeVal(es, addr)                // A-SER-NOFAIL
+//@   invariant loop1: vs.prefix == old(vs.prefix) && vs.store == old(vs.store) && vs.store.cs == old(vs.store.cs) && ctx.EvidenceStore == old(ctx.EvidenceStore) && arr(vs.queue.PriorityQueue) == old(arr(vs.queue.PriorityQueue)) && height == req.Height   // C10.purge-complete
+//@   invariant loop1: forall a string :: { addrStr(a) } qPopped(arr(vs.queue.PriorityQueue))[a] && !old(qPopped(arr(vs.queue.PriorityQueue)))[a] && recOKAt(verVal(vs.store.cs)[wrap64(req.Height - 1)], vs.prefix, a) && addrOfStr(addrStr(a)) == a ==> has(nonTopValidators, addrStr(a)) || activeVal(ctx.EvidenceStore, bytes(a))   // C10.purge-complete
